@@ -7,6 +7,8 @@ code after the repair of F1 (wrappers containing an attestation are refused by `
 Tie: family `attest`.
 -/
 import Macaroon.Lemmas.Token
+import Macaroon.Generated.Registry
+import Macaroon.Crypto.Symbolic
 
 namespace Macaroon.Props.C07
 open Macaroon Macaroon.Crypto Macaroon.Lemmas
@@ -146,6 +148,112 @@ theorem bearer_cannot_add (m : Mac B) (c : Cav B) (rest : List (AddItem B)) (see
   · intro ha hp; unfold addLoop; simp [ha, hp]
   · intro ha hw; unfold addLoop; simp [ha, hw]
 
+/-- the loop of `Add` on a non-proof token appends nothing that is, or wraps, an attestation -/
+theorem addLoop_never_adds_attestation : ∀ (its : List (AddItem B)) (m : Mac B) (seen : List Bytes),
+    m.nonce.proof = false →
+    ∀ c ∈ (addLoop its m seen).1.cavs, c ∈ m.cavs ∨ (c.isAttestation = false ∧ c.wrapsAttestation = false)
+  | [], m, seen, _, c, hc => Or.inl (by simpa [addLoop] using hc)
+  | it :: rest, m, seen, hp, c, hc => by
+    unfold addLoop at hc
+    cases it with
+    | plain x =>
+      simp only [hp, Bool.not_false, Bool.and_true] at hc
+      by_cases ha : x.isAttestation = true
+      · simp [ha] at hc; exact Or.inl hc
+      · simp only [ha, Bool.false_eq_true, ↓reduceIte] at hc
+        by_cases hw : x.wrapsAttestation = true
+        · simp [hw] at hc; exact Or.inl hc
+        · simp only [hw, Bool.false_eq_true, ↓reduceIte] at hc
+          cases hm : macCav m.tail x with
+          | none =>
+            simp only [hm] at hc
+            rcases List.mem_append.mp hc with h | h
+            · exact Or.inl h
+            · simp at h; subst h; exact Or.inr ⟨by simpa using ha, by simpa using hw⟩
+          | some t =>
+            simp only [hm] at hc
+            rcases addLoop_never_adds_attestation rest { m with cavs := m.cavs ++ [x], tail := t } seen hp c hc with h | h
+            · rcases List.mem_append.mp h with h | h
+              · exact Or.inl h
+              · simp at h; subst h; exact Or.inr ⟨by simpa using ha, by simpa using hw⟩
+            · exact Or.inr h
+    | new3p loc ticket rn nonce =>
+      simp only at hc
+      by_cases hs : seen.contains loc = true
+      · rw [if_pos hs] at hc; exact Or.inl hc
+      · rw [if_neg hs] at hc
+        cases hm : macCav m.tail (.tp loc (sealKey m.tail nonce rn) ticket) with
+        | none =>
+          simp only [hm] at hc
+          rcases List.mem_append.mp hc with h | h
+          · exact Or.inl h
+          · simp at h; subst h; exact Or.inr ⟨rfl, rfl⟩
+        | some t =>
+          simp only [hm] at hc
+          rcases addLoop_never_adds_attestation rest
+              { m with cavs := m.cavs ++ [.tp loc (sealKey m.tail nonce rn) ticket], tail := t } (seen ++ [loc]) hp c hc with h | h
+          · rcases List.mem_append.mp h with h | h
+            · exact Or.inl h
+            · simp at h; subst h; exact Or.inr ⟨rfl, rfl⟩
+          · exact Or.inr h
+
+/-- `add_never_adds_attestation`: whatever a bearer passes to `Add` on a non-proof token — any number
+of arguments, the attestation (or a wrapper around one, at any depth) in any position, successful
+call or not — no caveat that is or wraps an attestation is appended: every caveat of the token
+afterwards was there before, or is neither -/
+theorem add_never_adds_attestation (m : Mac B) (items : List (AddItem B)) (hp : m.nonce.proof = false) :
+    ∀ c ∈ (add m items).1.cavs, c ∈ m.cavs ∨ (c.isAttestation = false ∧ c.wrapsAttestation = false) := by
+  intro c hc
+  unfold add at hc
+  split at hc
+  · exact Or.inl hc
+  · split at hc
+    · exact Or.inl hc
+    · exact addLoop_never_adds_attestation _ m _ hp c hc
+
+/-- hence a non-proof token that carries no attestation (bare or wrapped) never acquires one through `Add` -/
+theorem nonproof_stays_attestation_free (m : Mac B) (items : List (AddItem B))
+    (hp : m.nonce.proof = false) (hclean : ∀ c ∈ m.cavs, c.isAttestation = false ∧ c.wrapsAttestation = false) :
+    ∀ c ∈ (add m items).1.cavs, c.isAttestation = false ∧ c.wrapsAttestation = false := by
+  intro c hc
+  rcases add_never_adds_attestation m items hp c hc with h | h
+  · exact hclean c h
+  · exact h
+
+/-! ### which types are attestations and wrappers: tied to the registry regenerated from /repo -/
+
+/-- the caveat types the model treats as attestations (`Cav.isAttestation`), by type number -/
+def attestationType (t : Nat) : Bool := t == 23 || t == 24 || t == 25
+/-- the caveat types the model treats as wrappers (`Cav.isWrapper`, `Cav.wrapsAttestation`, `unwrapGet`) -/
+def wrapperType (t : Nat) : Bool := t == 13
+
+/-- the model's classification is by type number; unregistered type numbers (a value of `UInt64` that
+is not in the registry decodes to `unregistered`, C11) are neither -/
+theorem isAttestation_by_type (c : Cav B) :
+    ((∀ t raw, c ≠ .unregistered t raw) → c.isAttestation = attestationType c.typ.toNat ∧
+        c.isWrapper = wrapperType c.typ.toNat) ∧
+    (∀ t raw, c = .unregistered t raw → c.isAttestation = false ∧ c.isWrapper = false) ∧
+    (c.wrapsAttestation = true → c.isWrapper = true) := by
+  refine ⟨?_, ?_, ?_⟩
+  · intro h
+    cases c <;> first
+      | exact ⟨rfl, rfl⟩
+      | exact absurd rfl (h _ _)
+  · rintro t raw rfl; exact ⟨rfl, rfl⟩
+  · intro h; cases c <;> simp_all [Cav.wrapsAttestation, Cav.isWrapper]
+
+/-- GENERATED-FACT OBLIGATION.  In the registry extracted from /repo on every run
+(Generated/Registry.lean: one row per `RegisterCaveatType` call, `attestation` = the Go type has a
+method `IsAttestation() bool` returning true, `wrapper` = it has `Unwrap() *CaveatSet`) the
+attestation types are exactly 23, 24, 25 and the only wrapper type is 13 — the classification the
+model (`isAttestation_by_type`) and hence every theorem of this file is built on.  A code change that
+makes another caveat type an attestation or a wrapper (or removes one) breaks the build here. -/
+theorem registry_attestation_flags :
+    Generated.registry.all (fun r => r.attestation == attestationType r.typ && r.wrapper == wrapperType r.typ) = true ∧
+    (Generated.registry.filter (·.attestation)).map (·.typ) = [23, 24, 25] ∧
+    (Generated.registry.filter (·.wrapper)).map (·.typ) = [13] := by
+  decide
+
 /-- a non-proof token carrying an attestation, or any token carrying a wrapped one, is rejected -/
 theorem smuggled_attestation_rejected (k : B) (m : Mac B) (dms : List (Mac B)) (tr : Bytes → List B)
     (c : Cav B) (hc : c ∈ m.cavs) (hk : c.is3P = false) (hb : c.isBind = false)
@@ -158,6 +266,43 @@ theorem smuggled_attestation_rejected (k : B) (m : Mac B) (dms : List (Mac B)) (
   · have := this.2 ha; rw [hp] at this; cases this
   · rw [this.1] at hw; cases hw
 
+/-! ### non-vacuity (symbolic instance; the end-to-end witness `exDA` is in Props/Symbolic.lean) -/
+
+section examples
+open Symbolic Symbolic.Term
+
+/-- issuer key `atom 0`, third-party key `atom 5`, discharge key `atom 11` -/
+def q0 : Mac Term := mint (atom 0) (lit [1]) [] (atom 1) false
+def qtk : Term := sealTicket (atom 5) (atom 12) (atom 11) [.isUser 3]
+def q1 : Mac Term := (add q0 [.plain (.isUser 7), .new3p [9] qtk (atom 11) (atom 13)]).1
+/-- the third party's finalised proof with an identity -/
+def qd : Mac Term := encodeState (add (mint (atom 11) qtk [9] (atom 14) true) [.plain (.flyioUserID 7)]).1
+def qtrust : Bytes → List Term := fun loc => if loc = [9] then [atom 5] else []
+
+example : verify (atom 0) q1 [qd] qtrust = .ok [.isUser 7, .flyioUserID 7] := by rfl
+-- `attestation_source` / `attestation_provenance`: hypotheses met, the discharge case is the one that holds
+example := attestation_source (atom 0) q1 [qd] qtrust _ (by rfl) (.flyioUserID 7) (by decide)
+example := attestation_provenance (atom 0) q1 [qd] qtrust _ (by rfl) (.flyioUserID 7) (by decide)
+-- untrusting verifier: the identity is not obtainable
+example : obtainable (match verify (atom 0) q1 [qd] (fun _ => []) with | .ok cs => cs | .error _ => []) = [] := by decide
+-- `trust_needs_matching_ticket`, both halves
+example : trustOf [atom 5] qtk (atom 11) = some true := by rfl
+example := (trust_needs_matching_ticket [atom 5] qtk (atom 11)).1 (by rfl)
+example : trustOf [atom 5] qtk (atom 99) = none :=
+  (trust_needs_matching_ticket [atom 5] qtk (atom 99)).2 (atom 5) (by simp) (atom 11) [.isUser 3] (by rfl) (by decide)
+    (by intro kb hkb hne; simp only [List.mem_singleton] at hkb; exact absurd hkb hne)
+-- `bearer_cannot_add`, `add_never_adds_attestation`
+example : (add q1 [.plain (.isUser 8), .plain (.flyioUserID 1)]).2 = some .attestationOnNonProof := by rfl
+example := add_never_adds_attestation q1 [.plain (.isUser 8), .plain (.flyioUserID 1)] rfl
+example := (bearer_cannot_add q1 (.flyioUserID 1) [] []).1 rfl rfl
+example := (bearer_cannot_add q1 (.ifPresent false (.cons (.flyioUserID 1) .nil) 0) [] []).2 rfl rfl
+-- `smuggled_attestation_rejected`: the attestation placed by hand in the non-proof token
+example := smuggled_attestation_rejected (atom 0) { q1 with cavs := q1.cavs ++ [.flyioUserID 1] } [qd] qtrust
+  (.flyioUserID 1) (by decide) rfl rfl (Or.inl ⟨rfl, rfl⟩)
+example := isAttestation_by_type (Cav.flyioUserID 1 : Cav Term)
+
+end examples
+
 end Macaroon.Props.C07
 
 #print axioms Macaroon.Props.C07.attestation_source
@@ -166,3 +311,8 @@ end Macaroon.Props.C07
 #print axioms Macaroon.Props.C07.no_keys_no_trust
 #print axioms Macaroon.Props.C07.bearer_cannot_add
 #print axioms Macaroon.Props.C07.smuggled_attestation_rejected
+#print axioms Macaroon.Props.C07.addLoop_never_adds_attestation
+#print axioms Macaroon.Props.C07.add_never_adds_attestation
+#print axioms Macaroon.Props.C07.nonproof_stays_attestation_free
+#print axioms Macaroon.Props.C07.isAttestation_by_type
+#print axioms Macaroon.Props.C07.registry_attestation_flags
